@@ -30,9 +30,18 @@
   * `change_tree_spec` also says what happens to the hidden amounts: `Offline` moves the counter
     into `H i`, a successful `Online` sets `H i = 0` (exact restoration), nothing else changes `H`.
   The fast free count excludes exactly the hidden frames: C04 `fast_counters_exact`.
+
+  * `conc_hidden_frames_stay_free` — **under every interleaving** of any number of threads that
+    allocate, free, drain and change trees (class changes, `Offline`; by id or by search): at
+    every quiescent end the frames hidden by `Offline` (`H'`, which only grew) are still free
+    frames of their trees in addition to everything the counters promise — nothing was allocated
+    from them, whatever raced with the `Offline` call (`Proofs/ConcChange.lean`). `Online` under
+    interleavings is refuted (C04 `k3_online_race_overreports`: restoration is *not* exact when a
+    free is in flight).
 -/
 import LLFreeV.Proofs.UpperInit
 import LLFreeV.Proofs.UpperPays
+import LLFreeV.Proofs.ConcChange
 namespace LLFree.C15
 open LLFree
 
@@ -151,5 +160,21 @@ theorem offline_never_allocated (c : Cfg) (ok : CfgOk c) (H : Nat → Nat) (m : 
     Runs m (get c frame r) (fun res m' => UpperInv0 c H m' ∧ GetOutcome c m r.order frame res m' ∧
       ∀ f k, res = .ok (f, k) → f / c.geom.treeFrames ≠ i) :=
   LLFree.offline_never_allocated ok inv frame r hcls hloc hv i t ht hfree hres
+
+/-- **Offline under every interleaving**: threads run arbitrary lists of public calls and
+    `change_tree` calls (class change and/or `Offline`); at every quiescent end the invariant holds
+    with hidden frames `H' ≥ H`, and for every tree the hidden frames are free frames beyond what
+    the tree counter and the reservations on the tree account for. -/
+theorem conc_hidden_frames_stay_free (c : Cfg) (ok : CfgOk c) (H : Nat → Nat) (m : Mem) (inv : UpperInv0 c H m)
+    (n : Nat) (cmds : Nat → List CCmd) (hvalid : ∀ k, ∀ x ∈ cmds k, x.valid c) (sched : List Nat) (hsched : ∀ k ∈ sched, k < n)
+    (hdone : ∀ k, k < n → ∃ held, ((concRun sched (m, fun k => Th.at (runUC c (cmds k) ⟨[], []⟩))).2 k).step
+      (concRun sched (m, fun k => Th.at (runUC c (cmds k) ⟨[], []⟩))).1 = .done held) :
+    let m' := (concRun sched (m, fun k => Th.at (runUC c (cmds k) ⟨[], []⟩))).1
+    ∃ H', (∀ i, H i ≤ H' i) ∧ UpperInv0 c H' m' ∧
+      ∀ i t, m'.trees[i]? = some t → t.free + m'.slotFree c.geom.treeRows i + H' i = m'.freeInTree c.geom i := by
+  obtain ⟨H', hle, hinv⟩ := upper_conc_quiescent_change ok H m inv n cmds hvalid sched hsched hdone
+  refine ⟨H', hle, hinv, fun i t ht => ?_⟩
+  have := hinv.counter i t ht
+  simpa using this
 
 end LLFree.C15
